@@ -14,6 +14,7 @@ from concurrent.futures import ThreadPoolExecutor
 from pathlib import Path
 
 from .. import tlc, trace
+from ..cachefs_exec import DAMAGED_KINDS
 from ..core import Machinery, child_env
 
 LEVEL = "model_checking"
@@ -113,7 +114,7 @@ def enumerated_schedules(tier, rng, sizes):
     # (e) the directory already holds something under the key: garbage, a truncated entry, a foreign pickle,
     #     an entry in the layout of an older version, an entry whose stored result is not the unfolding
     for a in exprs:
-        for what in ("garbage", "truncated", "empty-ish", "foreign", "oldformat"):
+        for what in ("garbage", "truncated", "empty-ish", "foreign", "oldformat") + DAMAGED_KINDS:
             out.append([["plant", 0, a, what], ["call", 1, a], ["run", 1], ["call", 2, "e2" if a == "e1" else "e1"], ["run", 2], ["call", 3, a], ["run", 3]])
     # (d) hand-picked interleavings of two processes on one key (reader during write, double writers)
     w = ["Stat", "OpenW", "Write", "Write", "Close", "Replace", "Return"]
